@@ -69,3 +69,45 @@ Definition capture_result : option (bytes * bytes) :=
 (* the program is accepted; in the source _h0 stays 5 and x becomes 12; the script leaves 6 in _h0 *)
 Theorem reserved_name_captured : capture_result = Some (bs "6", bs "12").
 Proof. vm_compute. reflexivity. Qed.
+
+(* ---- the Batch back-end ---- *)
+From Verif Require Import Back.BatchConv.
+
+(* its own names: everything with a leading underscore, mangled locals, and the newline variable LF
+   (cmd.exe folds case: lf, Lf and lF are the same variable) *)
+Definition lower_byte (c : N) : N := if (65 <=? c) && (c <=? 90) then c + 32 else c.
+Definition reserved_batch (n : bytes) : bool := reserved_bash n || beq (map lower_byte n) (bs "lf").
+
+Theorem batch_converter_names_reserved :
+  (forall s, reserved_batch (fst (w_next_helper s)) = true)
+  /\ (forall i, reserved_batch (fa_name i) = true)
+  /\ (forall i, reserved_batch (rv_name_w i) = true)
+  /\ (forall k, reserved_batch (bs "_fv" ++ dec_nat k) = true)
+  /\ (forall s x, w_funcs s <> [] -> reserved_batch (w_var_name s x false) = true)
+  /\ forallb reserved_batch [bs "_e"; bs "_dvc"; bs "_len"; bs "_i"; bs "_v"; bs "_sub"; bs "_sh"; bs "_l"; bs "_te"; bs "_h"; bs "_a"; bs "LF"] = true.
+Proof.
+  repeat split; try reflexivity.
+  intros s x H. unfold w_var_name. destruct (w_funcs s) as [|f r]; [contradiction|].
+  unfold reserved_batch. change (bs "f" ++ dec_nat (w_func_counter s) ++ bs "_" ++ x) with (mangled (w_func_counter s) x).
+  destruct converter_names_reserved as [_ [_ [_ [D _]]]]. rewrite (D (w_func_counter s) x). reflexivity.
+Qed.
+
+Theorem batch_unreserved_never_captured u :
+  reserved_batch u = false ->
+  (forall s, u <> fst (w_next_helper s)) /\ (forall i, u <> fa_name i) /\ (forall i, u <> rv_name_w i) /\ (forall k, u <> bs "_fv" ++ dec_nat k)
+  /\ (forall s x, w_funcs s <> [] -> u <> w_var_name s x false)
+  /\ ~ In u [bs "_e"; bs "_dvc"; bs "_len"; bs "_i"; bs "_v"; bs "_sub"; bs "_sh"; bs "_l"; bs "_te"; bs "_h"; bs "_a"; bs "LF"].
+Proof.
+  intro H. destruct batch_converter_names_reserved as [A [B [C [D [E F]]]]].
+  repeat split.
+  - intros s Eq. rewrite Eq, A in H. discriminate.
+  - intros i Eq. rewrite Eq, B in H. discriminate.
+  - intros i Eq. rewrite Eq, C in H. discriminate.
+  - intros k Eq. rewrite Eq, D in H. discriminate.
+  - intros s x Hf Eq. rewrite Eq, (E s x Hf) in H. discriminate.
+  - intro I. rewrite forallb_forall in F. rewrite (F u I) in H. discriminate.
+Qed.
+
+(* case folding: a user variable spelled lf is the converter's LF for cmd.exe *)
+Example batch_case_folding : reserved_batch (bs "lf") = true /\ reserved_batch (bs "Lf") = true /\ reserved_batch (bs "total") = false.
+Proof. repeat split; reflexivity. Qed.
